@@ -8,6 +8,19 @@ import random
 from .core import HarnessError
 
 
+NAME_STYLES = ("x", "x", "rev", "words")
+_WORDS = ["width", "height", "depth", "radius", "angle", "current", "turns", "gap", "mass", "length", "offset", "bias"]
+
+
+def pname(i, style="x"):
+    """parameter names are the user's: numbered (sorted for < 10), in descending alphabetical order, or descriptive"""
+    if style == "rev":
+        return "p%02d" % (99 - i)
+    if style == "words":
+        return _WORDS[i % len(_WORDS)] + ("" if i < len(_WORDS) else str(i // len(_WORDS)))
+    return "x%d" % i
+
+
 def params(bounds, extra=None):
     out = []
     for i, (lb, ub) in enumerate(bounds):
